@@ -69,6 +69,8 @@ enum Sk {
     Tcp(SocketHandle),
     Udp(SocketHandle, u16, Option<IpAddr>),
     Icmp(SocketHandle),
+    /// ICMP socket bound to a UDP port: receives ICMP errors that quote a UDP datagram sent from that port
+    IcmpUdp(SocketHandle, u16),
     Dns(SocketHandle),
     Raw(SocketHandle),
 }
@@ -134,6 +136,7 @@ impl<'a> Inj<'a> {
                 }
                 Sk::Udp(h, _, _) => all += &format!("{:?}", self.node.sockets.get::<udp::Socket>(*h)),
                 Sk::Icmp(h) => all += &format!("{:?}", self.node.sockets.get::<icmp::Socket>(*h)),
+                Sk::IcmpUdp(h, _) => all += &format!("{:?}", self.node.sockets.get::<icmp::Socket>(*h)),
                 Sk::Dns(h) => all += &format!("{:?}", self.node.sockets.get::<dns::Socket>(*h)),
                 Sk::Raw(h) => {
                     let _ = h;
@@ -329,6 +332,10 @@ pub fn run(tape: &mut Tape, props: Props, thorough: bool, trace_on: bool) -> Out
     let mut ic = icmp::Socket::new(icmp::PacketBuffer::new(vec![icmp::PacketMetadata::EMPTY; 4], vec![0u8; 512]), icmp::PacketBuffer::new(vec![icmp::PacketMetadata::EMPTY; 2], vec![0u8; 256]));
     ic.bind(icmp::Endpoint::Ident(0x2222)).unwrap();
     socks.push(Sk::Icmp(node.sockets.add(ic)));
+    // (port 257 = 0x0101: what the first two octets of an IPv4 options field full of NOPs read as)
+    let mut icu = icmp::Socket::new(icmp::PacketBuffer::new(vec![icmp::PacketMetadata::EMPTY; 4], vec![0u8; 1024]), icmp::PacketBuffer::new(vec![icmp::PacketMetadata::EMPTY; 2], vec![0u8; 256]));
+    icu.bind(icmp::Endpoint::Udp(IpListenEndpoint { addr: None, port: 257 })).unwrap();
+    socks.push(Sk::IcmpUdp(node.sockets.add(icu), 257));
     let servers = [to_smol(&v4.map(|_| IpAddr::V4([10, 0, 0, 2])).unwrap_or_else(|| {
         let mut s = v6addr;
         s[15] = 2;
@@ -423,6 +430,7 @@ fn body(c: &mut Inj, thorough: bool) -> Result<(), Violation> {
         // ---- protocol and port relation
         let proto = if forced.is_some() { 2 } else { c.tape.draw(8) };
         let mut udp_dport: Option<u16> = None;
+        let mut quoted_sport: Option<u16> = None;
         let (l4p, l4, is_err, is_rst, what): (u8, Vec<u8>, bool, bool, &'static str) = match proto {
             0 | 1 => {
                 // (7002: the port the closed socket used to have; 0: what an unbound socket's endpoint reads)
@@ -452,9 +460,29 @@ fn body(c: &mut Inj, thorough: bool) -> Result<(), Violation> {
                 (p, enc_icmp(v6, &src, &dst, typ, 0, [0x33, 0x33, 0, 1], b"ping"), false, false, "echo")
             }
             5 => {
-                // ICMP error quoting a UDP datagram "from us"
+                // ICMP error quoting a UDP datagram "from us" (from the port our UDP socket uses, from the port an ICMP
+                // socket watches, or from another one); over IPv4 the quoted header sometimes carries options
                 let own = if v6 { IpAddr::V6(c.v6) } else { IpAddr::V4(c.v4.unwrap()) };
-                let q = enc_ip(&own, &src, P_UDP, 64, &enc_udp(&own, &src, 7000, 9, b"xxxx"));
+                let qsport = *c.tape.pick(&[7000u16, 257, 9, 7000]);
+                quoted_sport = Some(qsport);
+                let mut q = enc_ip(&own, &src, P_UDP, 64, &enc_udp(&own, &src, qsport, 9, b"xxxx"));
+                if !v6 && c.tape.draw(3) == 0 {
+                    let opts: &[u8] = if c.tape.draw(2) == 0 { &[1, 1, 1, 0] } else { &[1, 1, 1, 1, 1, 1, 1, 0] };
+                    let mut w2 = q[..20].to_vec();
+                    w2.extend_from_slice(opts);
+                    w2.extend_from_slice(&q[20..]);
+                    w2[0] = 0x40 | ((20 + opts.len()) / 4) as u8;
+                    let tl = q.len() + opts.len();
+                    w2[2] = (tl >> 8) as u8;
+                    w2[3] = tl as u8;
+                    w2[10] = 0;
+                    w2[11] = 0;
+                    let cs = inet_csum(&w2[..20 + opts.len()], 0);
+                    w2[10] = (cs >> 8) as u8;
+                    w2[11] = cs as u8;
+                    q = w2;
+                    c.stats.inc("inj.icmp-error-quoting-a-header-with-options");
+                }
                 let (typ, p) = if v6 { (1u8, P_ICMP6) } else { (3u8, P_ICMP) };
                 (p, enc_icmp(v6, &src, &dst, typ, 3, [0, 0, 0, 0], &q), true, false, "icmp-error")
             }
@@ -495,7 +523,35 @@ fn body(c: &mut Inj, thorough: bool) -> Result<(), Violation> {
             None => (l4p, l4.clone()),
         };
         let ip = enc_ip(&src, &dst, l4p_ip, 64, &l4_ip);
-        let frame = c.wrap(ip, l2);
+        // Ethernet + IPv4: sometimes the frame is an ARP request or reply for the node's address instead, sent to
+        // the link-layer destination class drawn above (own, another station's, broadcast, multicast)
+        let arp_frame: Option<Vec<u8>> = if c.medium == Medium::Ethernet && c.v4.is_some() && forced.is_none() && hbh.is_none() && c.tape.draw(12) == 0 {
+            let a = Arp { op: 1 + c.tape.draw(2) as u16, sha: P_MAC, spa: [10, 0, 0, 2], tha: if c.tape.draw(2) == 0 { [0; 6] } else { V_MAC }, tpa: c.v4.unwrap() };
+            let dmac = match l2 {
+                L2Class::Own if c.hw_changed => V_MAC_2,
+                L2Class::Own => V_MAC,
+                L2Class::OtherUnicast if c.hw_changed => V_MAC,
+                L2Class::OtherUnicast => [2, 0, 0, 0, 0, 0x55],
+                L2Class::Broadcast => [0xff; 6],
+                _ => [0x33, 0x33, 0, 0, 0, 1],
+            };
+            c.stats.inc("inj.arp-frames");
+            Some(enc_eth(dmac, P_MAC, ETH_ARP, &enc_arp(&a)))
+        } else {
+            None
+        };
+        let is_arp = arp_frame.is_some();
+        let (dc, sc, what) = if is_arp { (DstClass::Own, SrcClass::OnLink, "arp") } else { (dc, sc, what) };
+        let (l4p, is_err, is_rst) = if is_arp { (0u8, false, false) } else { (l4p, is_err, is_rst) };
+        if is_arp {
+            udp_dport = None;
+            quoted_sport = None;
+        }
+        let (dst, src) = if is_arp { (IpAddr::V4(c.v4.unwrap()), IpAddr::V4([10, 0, 0, 2])) } else { (dst, src) };
+        let frame = match arp_frame {
+            Some(f) => f,
+            None => c.wrap(ip, l2),
+        };
         c.stats.inc("inj.packets");
         // ---- independent verdicts
         let l2_ours = match (c.medium, l2) {
@@ -540,6 +596,29 @@ fn body(c: &mut Inj, thorough: bool) -> Result<(), Violation> {
         let info = c.node.poll_ingress_single(c.now)?;
         let out = emitted(c, &info)?;
         let (tcp_after, all_after) = c.snapshot();
+        // C09 (datagram sockets): an ICMP error that arrives for the node from a unicast peer and quotes a complete,
+        // valid UDP datagram sent from the watched port is a valid datagram for the ICMP socket bound to that port: it
+        // is delivered, once (the socket's buffer is drained after every frame, so there is room)
+        if c.props.has("C09") && !c.props.has("C11") {
+            let plain = is_err && quoted_sport == Some(257) && hbh.is_none() && l2 == L2Class::Own && matches!(dc, DstClass::Own | DstClass::Own2) && matches!(sc, SrcClass::OnLink | SrcClass::OffLink | SrcClass::OnLink2);
+            for i in 0..c.socks.len() {
+                if let Sk::IcmpUdp(h, port) = &c.socks[i] {
+                    let (h, port) = (*h, *port);
+                    let so = c.node.sockets.get_mut::<icmp::Socket>(h);
+                    let mut n = 0;
+                    while let Ok((_d, _f)) = so.recv() {
+                        n += 1;
+                    }
+                    if plain && n != 1 {
+                        return Err(viol("C09", "must-deliver", "C09.must-deliver/icmp-error-for-the-watched-udp-port-not-delivered-once", format!("an ICMP error quoting a UDP datagram sent from port {} was delivered {} times to the ICMP socket bound to that port: {}", port, n, summary)));
+                    }
+                    if plain {
+                        c.stats.inc("inj.c09-watcher-deliveries-checked");
+                    }
+                }
+            }
+            continue;
+        }
         if !c.props.has("C11") {
             continue;
         }
@@ -601,6 +680,19 @@ fn body(c: &mut Inj, thorough: bool) -> Result<(), Violation> {
                 if before != after {
                     let (a, b) = crate::scen_tcp::first_diff(&before, &after);
                     return Err(viol("C11", "endpoint-match", sigfix("C11.endpoint/tcp-socket-bound-to-another-address-changed".to_string()), format!("the TCP socket listening on {}:81 changed on a segment addressed to {}: {} ; ..{}.. => ..{}..", bound, dst, summary, a, b)));
+                }
+            }
+        }
+        // 5b. an ICMP socket bound to a UDP port only ever gets errors that quote a datagram sent from that port
+        for i in 0..c.socks.len() {
+            if let Sk::IcmpUdp(h, port) = &c.socks[i] {
+                let (h, port) = (*h, *port);
+                let so = c.node.sockets.get_mut::<icmp::Socket>(h);
+                while let Ok((_data, _from)) = so.recv() {
+                    c.stats.inc("inj.icmp-error-delivered-to-the-port-watcher");
+                    if !(is_err && quoted_sport == Some(port)) {
+                        return Err(viol("C11", "endpoint-match", "C11.endpoint/icmp-socket-bound-to-a-udp-port-received-an-error-about-another-port", format!("the ICMP socket watching UDP port {} received a message although the packet delivered was: {} (quoted source port {:?})", port, summary, quoted_sport)));
+                    }
                 }
             }
         }
